@@ -140,6 +140,28 @@ Definition collect_topo (m : attrs) (s : slice) : res attrs :=
   bind (collect_svcs (sl_ports s) m (sl_svcs s)) (fun m =>
   Ok (fold_left (fun m f => dd_append A_RESOURCE_FACILITY_PORT (AS f) m) (sl_facs s) m)).
 
+(* ---- the ASM path: _collect_attributes_from_asm = asm.validate_graph(); t = ExperimentTopology(graph_string=
+   asm.serialize_graph()); t.validate(); _collect_attributes_from_topo(t).  The reloaded topology lists its members by
+   walking the graph BY CLASS in the backend's node enumeration order (get_all_network_nodes / get_all_network_service_nodes /
+   get_all_nodes_by_class_and_type / the interface walk), so the abstract graph is the slice's elements in one arbitrary
+   enumeration order.  validate() only writes the inferred site of services that do not carry one yet: it is the identity on
+   a model serialized from a validated topology (documented precondition, see notes/C11.md); that serialize/load preserves
+   the elements is C01/C02's subject. *)
+Inductive gelem :=
+| GNode (n : node)                 (* a non-facility NetworkNode with its components (in has-edge enumeration order) *)
+| GSvc (v : svc)                   (* a NetworkService node *)
+| GFac (f : str)                   (* a NetworkNode of type Facility *)
+| GPort (p : option str).          (* a labelled service port peering a node interface *)
+Definition agraph := list gelem.
+
+Definition slice_of_graph (g : agraph) : slice :=
+  mkSlice (flat_map (fun e => match e with GNode n => [n] | _ => [] end) g)
+          (flat_map (fun e => match e with GPort p => [p] | _ => [] end) g)
+          (flat_map (fun e => match e with GSvc v => [v] | _ => [] end) g)
+          (flat_map (fun e => match e with GFac f => [f] | _ => [] end) g).
+
+Definition collect_asm (m : attrs) (g : agraph) : res attrs := collect_topo m (slice_of_graph g).
+
 (* arguments that are None / a string / a list of strings *)
 Inductive sarg := SNone | SOne (s : str) | SMany (l : list str).
 
@@ -162,7 +184,8 @@ Definition lifetime_text (days secs : Z) : str :=
   S"P" ++ str_of_Z days ++ S"DT" ++ str_of_Z h ++ S"H" ++ str_of_Z mi ++ S"M" ++ str_of_Z s ++ S"S".
 
 Inductive op :=
-| OTopo (s : slice)                           (* collect_resource_attributes(source=topology or its ASM) *)
+| OTopo (s : slice)                           (* collect_resource_attributes(source=topology) *)
+| OAsm (g : agraph)                           (* collect_resource_attributes(source=NetworkxASM) *)
 | ONode (n : node)                            (* source = Node / NodeSliver *)
 | OSvc (v : svc)                              (* source = NetworkService / NetworkServiceSliver (no in-slice ports) *)
 | OSubject (sid proj tag : sarg)              (* set_subject_attributes *)
@@ -173,6 +196,7 @@ Inductive op :=
 Definition step (m : attrs) (o : op) : res attrs :=
   match o with
   | OTopo s => collect_topo m s
+  | OAsm g => collect_asm m g
   | ONode n => Ok (collect_node m n)
   | OSvc v => collect_svc [] m v
   | OSubject sid proj tag =>
@@ -267,6 +291,7 @@ Definition log_topo (st : logst) (s : slice) : logst :=
 Definition log_step (st : logst) (o : op) : logst :=
   match o with
   | OTopo s => log_topo st s
+  | OAsm g => log_topo st (slice_of_graph g)
   | ONode n => log_node st n
   | OSvc v => log_svc st v
   | _ => st
@@ -383,3 +408,82 @@ Definition check11 (c : list op * (bool * bool) * val) : bool :=
   end.
 
 Definition check11_group (g : list (list op * (bool * bool) * val)) : bool := forallb check11 g.
+
+(* ---------------------------------------------------------------- histories on long-lived objects *)
+(* one long-lived collector (its mapping is the state) and, at each event, the current slice of the long-lived topology:
+   HSame s  = collect_resource_attributes(source=topology) on the long-lived collector, answer = its mapping afterwards
+   HFresh s = the same call on a collector created for the occasion, answer = that collector's mapping *)
+Inductive hev := HSame (s : slice) | HFresh (s : slice).
+
+Definition hist_step (st : attrs * list attrs) (e : hev) : res (attrs * list attrs) :=
+  let '(m, outs) := st in
+  match e with
+  | HSame s => bind (collect_topo m s) (fun m' => Ok (m', outs ++ [m']))
+  | HFresh s => bind (collect_topo init_attrs s) (fun r => Ok (m, outs ++ [r]))
+  end.
+
+Definition hist_run (es : list hev) : res (attrs * list attrs) :=
+  fold_left (fun acc e => bind acc (fun st => hist_step st e)) es (Ok (init_attrs, [])).
+
+Definition same_slices (es : list hev) : list slice := flat_map (fun e => match e with HSame s => [s] | HFresh _ => [] end) es.
+
+(* ---------------------------------------------------------------- LogCollector.__str__ *)
+(* the parts of the log line, before they are joined with ';' (sets in the model's insertion order; the harness
+   splits the text and compares the two sets up to order) *)
+Definition colon (a b : str) : str := a ++ S":" ++ b.
+Definition vmdetail_key (c : caps3) : str :=
+  let '(a, b, d) := c in S"C" ++ str_of_Z a ++ S"/R" ++ str_of_Z b ++ S"/D" ++ str_of_Z d.
+Definition str_is (a b : str) : bool := str_eqb a b.
+
+Record log_summary := mkSum {
+  sm_vms : Z; sm_cores : Z; sm_p4s : Z;
+  sm_sites : list str; sm_facs : list str;
+  sm_comps : list str;            (* "type:count" in dictionary order *)
+  sm_svcs : list str;             (* "type:bw" for every service that is not OVS, in list order *)
+  sm_vmdetails : list (str * Z)   (* "C../R../D..": how many VMs *)
+}.
+
+Definition summary_of (st : logst) : log_summary :=
+  mkSum (l_vm st) (l_core st) (l_p4 st) (l_sites st) (l_facs st)
+        (map (fun kv => colon (fst kv) (str_of_Z (snd kv))) (l_comps st))
+        (map (fun kv => colon (fst kv) (str_of_Z (snd kv))) (filter (fun kv => negb (str_eqb (fst kv) (S"OVS"))) (l_svcs st)))
+        (fold_left (fun d c => cnt_inc (vmdetail_key c) d) (l_nodes st) []).
+
+Definition summary_val (u : log_summary) : val :=
+  VL [VZ (sm_vms u); VZ (sm_cores u); VZ (sm_p4s u); VL (map VS (sm_comps u)); VL (map VS (sm_svcs u));
+      VL (map kv_val (sm_vmdetails u))].
+
+Definition summary_check (u : log_summary) (o : val) : bool :=
+  match o with
+  | VL [core; VL sites; VL facs] =>
+      val_eqb (summary_val u) core && ms_eqb (map VS (sm_sites u)) sites && ms_eqb (map VS (sm_facs u)) facs
+  | _ => false
+  end.
+
+(* ---------------------------------------------------------------- cases of the correspondence streams *)
+Inductive ccase :=
+| CFull (ops : list op) (rpl cd : bool) (o : val)        (* VL [attrs (exact); pdp; log; attrs through the ASM (canonical) | VNone] *)
+| CAttrsLog (ops : list op) (oa ol : val)                 (* exact attribute mapping and log dictionary *)
+| CSummary (ops : list op) (o : val)                      (* the parsed LogCollector.__str__ *)
+| CCanon (ops : list op) (oa ol : val).                   (* mapping and log dictionary up to order (another enumeration
+                                                             of the same graph: component order is not reproducible) *)
+
+Definition log_check_canon (st : logst) (o : val) : bool :=
+  match o with
+  | VL [VL ns; VZ core; VZ vm; VZ p4; VL comps; VL svcs; VL facs; VL sites] =>
+      ms_eqb (map caps_val (l_nodes st)) ns &&
+      Z.eqb (l_core st) core && Z.eqb (l_vm st) vm && Z.eqb (l_p4 st) p4 &&
+      ms_eqb (map kv_val (l_comps st)) comps && ms_eqb (map kv_val (l_svcs st)) svcs &&
+      ms_eqb (map VS (l_facs st)) facs && ms_eqb (map VS (l_sites st)) sites
+  | _ => false
+  end.
+
+Definition check11c (c : ccase) : bool :=
+  match c with
+  | CFull ops rpl cd o => check11 (ops, (rpl, cd), o)
+  | CAttrsLog ops oa ol => attrs_exact (run ops) oa && log_check (log_run ops) ol
+  | CSummary ops o => summary_check (summary_of (log_run ops)) o
+  | CCanon ops oa ol => attrs_canon (run ops) oa && log_check_canon (log_run ops) ol
+  end.
+
+Definition check11_cases (g : list ccase) : bool := forallb check11c g.
